@@ -193,7 +193,8 @@ def run(prop, tier):
         rep.cov["evaluations"] = len(traces)
         rep.cov["distinct_nontrivial"] = len({json.dumps(t["schedule"]) for t in traces if t["schedule"]})
         rep.cov["rule"] = ("one evaluation = one real multi-threaded execution under a fixed schedule; schedules = all with <= 1 "
-                           "preemption at line granularity (quick: every 3rd decision point) + random (+ sampled 2-preemption and "
+                           "preemption at line granularity (quick: every 3rd decision point) + park-until-the-other-is-in-its-body schedules "
+                           "(cold same-call scenarios, every decision point of the first half) + random (+ sampled 2-preemption and "
                            "3-thread schedules in thorough); distinct = different realised schedules")
         per = {}
         for t in traces:
